@@ -396,6 +396,10 @@ def run(chk):
                    "applied only when %s: with both transforms set the %s part is skipped" % ("; ".join(bad), kind) if bad else "")
     chk.floor("C10-D6.independent", nind, 12, "applications of a linear or conformal correction in the API class")
 
+    from rules import routing
+    nrt = routing.routing_rule(chk, db, "C10-D7.routing")
+    chk.floor("C10-D7.routing", nrt, 15, "forwarding calls of the three families")
+
     return ("Static rule discharge: the rule partitions of all dispatchers are compared enumerator by enumerator; the straight-line loop bodies of each family are converted to closed forms in "
             "(x, a, b, alpha, beta) and the identities forward∘inverse = id, Jacobian = d(inverse)/dx, quadrature scale = (d forward/dx)^(1+w), support factor = d forward/dx and the images of "
             "the canonical end points are discharged with sympy. The conformal (asin) map and Newton convergence / round-off at the boundary are not decided.")
